@@ -59,7 +59,7 @@ func init() {
 		return L(U(bitmap.MaskUpto[i]), U(bitmap.RMaskUpto[i]), U(bitmap.Bit[i]), U(bitmap.RBit[i]))
 	}
 	// widening: bitmap.Fmt on every integer kind, single value or slice; sz outside {1,2,4,8} = a non-integer type
-	Exec["bitmap.Fmt"] = func(a []V) string {
+	Exec["bitmap.Fmt/c12"] = func(a []V) string {
 		return Str(bitmap.Fmt(c12FmtArg(a[0].Int(), a[1].Bool(), a[2].Bool(), a[3].L)))
 	}
 	// widening: OfMany(subs, sizes) against Of(shifted concatenation, sum of sizes); only the relation is observed
@@ -633,7 +633,7 @@ func genC12(g *Gen) {
 			key = fmt.Sprintf("Fmt/notint/sl%v/n%d", slice, minInt(len(vals), 2))
 		}
 		g.Stat(bucket)
-		g.Do("bitmap.Fmt", L(Int(sz), B(signed), B(slice), L(vals...)), key)
+		g.Do("bitmap.Fmt/c12", L(Int(sz), B(signed), B(slice), L(vals...)), key)
 	}
 	for b := 0; b < 256; b++ {
 		fm(1, false, false, []string{Int(b)}, "fmt-byte")
